@@ -12,12 +12,11 @@ META = {
 
 def run(c):
     # (M)
-    c.tlc_mc("WebrtcStream", c.pick("MCWebrtcStream5.cfg", "MCWebrtcStream8.cfg"), timeout=1500)
+    c.tlc_mc("WebrtcStream", c.pick("MCWebrtcStream.cfg", "MCWebrtcStream8.cfg"), timeout=1500)
     c.tlc_mc("WebrtcStream", "MCWebrtcStream_canary.cfg", expect="ReadOnlyWhileOpen")
+    c.tlc_mc("WebrtcStream", "MCWebrtcStream_canary2.cfg", expect="AfterReset")
     if not c.quick:
         c.tlc_mc("WebrtcStream", "MCWebrtcStreamPair6.cfg", timeout=1500)
-        c.tlc_mc("WebrtcStream", "MCWebrtcStream.cfg", timeout=1500, count=False)
-        c.tlc_mc("WebrtcStream", "MCWebrtcStream_canary2.cfg", expect="AfterReset")
         c.tlc_mc("WebrtcStream", "MCWebrtcStream_canary3.cfg", expect="ReadOnlyWhileOpen")
     drv = c.build("drv-webrtc")
     traces = []
@@ -27,7 +26,7 @@ def run(c):
         traces.append(t)
     else:
         # (G) TLC: edge cover of the single-stream model, state/edge cover of the paired model
-        gens = c.pick(["GenWebrtcStream_q1.cfg", "GenWebrtcStream_q2.cfg"],
+        gens = c.pick(["GenWebrtcStream_q1.cfg", "GenWebrtcStream_q2.cfg", "GenWebrtcStream_t3.cfg"],
                       ["GenWebrtcStream_t1.cfg", "GenWebrtcStream_t2.cfg", "GenWebrtcStream_t3.cfg"])
         for g in gens:
             sched, n, _ = c.tlc_gen("GenWebrtcStream", g, exhaustive=True, timeout=1500,
@@ -39,7 +38,7 @@ def run(c):
         c.drive(drv, ["stream", "exhaustive", c.pick(2, 3), t])
         traces.append(t)
         t = c.rundir / "rand.ndjson"
-        c.drive(drv, ["stream", "random", c.seed, c.pick(400, 6000), t])
+        c.drive(drv, ["stream", "random", c.seed, c.pick(1500, 6000), t])
         traces.append(t)
     # (V)
     distinct = set()
